@@ -119,3 +119,24 @@ Proof.
   destruct (from_bban_parts national cc r b s Er Hs) as [_ Hparts]. destruct (Hparts Hcl) as [E1 E2].
   split; [exact E2|]. split; [exact E1|]. intros k v Hp Hk Hnn Hl. unfold field. rewrite E1. exact (Hpins k v Hp Hk Hnn Hl).
 Qed.
+
+From Coq Require Import String.
+Open Scope list_scope.
+(* C09 for the random producer: a randomly drawn BBAN of a country that computes check digits passes the national
+   validation (the drawn - or pinned - digits in the check-digit field are replaced by the computed ones) *)
+Theorem gen_random_national_valid : forall cc0 reg pins ci bi draws cc b r ps cls acc w,
+  random_bban' cc0 reg pins ci bi draws = Ok (cc, b) ->
+  find_row the_table cc = Some r -> r_positions r = Some ps -> text_eqb cc (tx "DE") = false ->
+  assoc (cc ++ [58%N] ++ k_default) registered = Some (cls, acc) -> class_width cls = Some w ->
+  (forall k v, In (k, v) pins -> cleaned the_env v = true) ->
+  (forall d, In d draws -> cleaned the_env (upper the_env d) = true) ->
+  validate_national the_table the_algos (bank_code_entries the_banks) cc b = Ok true.
+Proof.
+  intros cc0 reg pins ci bi draws cc b r ps cls acc w H Er Eps Hde Hreg Hw HP HDRAWS.
+  assert (HD : forall k0 v0, In (k0, v0) (r_defaults r) -> cleaned the_env v0 = true).
+  { intros k0 v0 Hin. pose proof gen_defaults_clean_obl as O. rewrite forallb_forall in O.
+    specialize (O r (proj1 (find_row_in _ _ _ Er))). rewrite forallb_forall in O. exact (O (k0, v0) Hin). }
+  destruct (random_built the_env the_components the_table the_algos the_banks env_obl gen_zero_obl cc0 reg pins ci bi draws cc b r ps
+              H Er Eps (layout_of cc r Er) gen_codes_clean_obl HD HP HDRAWS) as (values & Hb & ONLY).
+  exact (built_national_valid cc r cls acc w values b Er Hde Hreg Hw Hb ONLY).
+Qed.
